@@ -16,6 +16,7 @@ package alephium
 // pub = tx.tsms.nonce.seq.cl.emitterchain.targetchain.emitter.payload
 
 import (
+	"bytes"
 	"context"
 	"encoding/binary"
 	"encoding/hex"
@@ -106,6 +107,59 @@ func pad32(s []byte, left bool) []byte {
 	return p
 }
 
+// nulInside puts a zero byte into the middle of a word (words shorter than 2 or already 32 long: a fixed 3-letter word)
+func nulInside(w []byte) []byte {
+	if len(w) < 2 || len(w) >= 32 {
+		w = []byte("USD")
+	}
+	k := len(w) / 2
+	return append(append(append([]byte{}, w[:k]...), 0), w[k:]...)
+}
+
+// near-miss variants of a metadata string; nil when the variant would not differ (or not fit)
+var nearMiss = map[string]func([]byte) []byte{
+	"nulin": func(w []byte) []byte { // "USDT" attested as "US\x00DT"
+		if len(w) < 2 || len(w) >= 32 || bytes.IndexByte(w, 0) >= 0 {
+			return nil
+		}
+		return nulInside(w)
+	},
+	"nulout": func(w []byte) []byte { // contract says "US\x00DT", attested "USDT"
+		if bytes.IndexByte(w, 0) < 0 {
+			return nil
+		}
+		return bytes.ReplaceAll(w, []byte{0}, nil)
+	},
+	"afternul": func(w []byte) []byte { // differs only in a byte after an inner NUL
+		k := bytes.IndexByte(w, 0)
+		if k < 0 || k+1 >= len(w) {
+			return nil
+		}
+		c := append([]byte{}, w...)
+		c[k+1] ^= 1
+		return c
+	},
+	"space": func(w []byte) []byte {
+		if len(w) == 0 || len(w) >= 32 {
+			return nil
+		}
+		return append(append([]byte{}, w...), ' ')
+	},
+	"lspace": func(w []byte) []byte {
+		if len(w) == 0 || len(w) >= 32 {
+			return nil
+		}
+		return append([]byte{' '}, w...)
+	},
+	"case": func(w []byte) []byte {
+		c := bytes.ToLower(w)
+		if bytes.Equal(c, w) {
+			return nil
+		}
+		return c
+	},
+}
+
 // otherWord: a different word of at most 32 bytes (one more letter, or one letter changed)
 func otherWord(w []byte) []byte {
 	c := append([]byte{}, w...)
@@ -133,6 +187,13 @@ func (g *fgen) newToken(degrade bool) *tokenTruth {
 	t := &tokenTruth{token: g.bytesN(32), decimals: uint8(g.pick(0, 6, 8, 18, 254, g.r.Intn(255))), symbol: g.word(), name: g.word()}
 	if g.chance(3) {
 		t.decimals = 255
+	}
+	if g.chance(10) { // the contract's own string has a zero byte inside: only NUL padding at the ends is ever stripped
+		if g.chance(50) {
+			t.symbol = nulInside(t.symbol)
+		} else {
+			t.name = nulInside(t.name)
+		}
 	}
 	sym, name := hex.EncodeToString(t.symbol), hex.EncodeToString(t.name)
 	if g.chance(30) { // the token contract may report padded strings as well; the watcher trims NULs on both sides
@@ -171,6 +232,23 @@ func (g *fgen) attestFor(t *tokenTruth, how string) []byte {
 		name = pad32(otherWord(t.name), g.chance(50))
 	case "chain":
 		chain = uint16(g.pick(0, 2, 254, 256))
+	default:
+		// near-miss encodings of one of the two strings: equal only under a wrong normalisation
+		if fn, ok := nearMiss[how]; ok {
+			if g.chance(50) {
+				if w := fn(t.symbol); w != nil {
+					sym = pad32(w, g.chance(50))
+				} else {
+					sym = pad32(otherWord(t.symbol), true)
+				}
+			} else {
+				if w := fn(t.name); w != nil {
+					name = pad32(w, g.chance(50))
+				} else {
+					name = pad32(otherWord(t.name), true)
+				}
+			}
+		}
 	}
 	p := attestPayload(tok, chain, dec, sym, name)
 	switch how {
@@ -231,7 +309,7 @@ func (g *fgen) randMsg(c *fcfg) msgSpec {
 		t := c.tokens[g.r.Intn(len(c.tokens))]
 		how := "ok"
 		if g.chance(30) {
-			how = []string{"decimals", "symbol", "name", "chain", "len99", "len101"}[g.r.Intn(6)]
+			how = []string{"decimals", "symbol", "name", "chain", "len99", "len101", "nulin", "nulin", "nulout", "afternul", "space", "lspace", "case"}[g.r.Intn(13)]
 		}
 		m.payload = g.attestFor(t, how)
 		if g.chance(6) { // ALPH itself (token id zero): no node call, fixed metadata
@@ -360,7 +438,14 @@ type watchRun struct {
 	errC   chan error
 	evA    chan []*UnconfirmedEvent // fetchEvents -> harness
 	evB    chan []*UnconfirmedEvent // harness -> handleEvents
-	hC     chan int32
+	hC     chan int32 // harness -> handleEvents
+	hA     chan int32 // real fetchHeight -> harness (cases with viaFH)
+	viaFH  bool       // heights come from the real fetchHeight polling the fake node's chain-info
+	hparked    bool   // a chain-info request of the height poller is waiting at the gate
+	heightDone chan struct{}
+	dip        bool // scenario: the node once reports a height far ahead, then falls back (reorg / resync / lagging node)
+	anchored   bool // dip scenario: an event in a block with a future timestamp keeps the poller busy meanwhile
+	spiked     bool
 	msgC   chan *common.MessagePublication
 	base   int64 // wall clock (ms) at case start; block timestamps keep >= 10 minutes clear of every floor
 	blocks []*fblock
@@ -375,7 +460,7 @@ type watchRun struct {
 	panicked   bool
 }
 
-func (g *fgen) newWatchRun(kind string, fetch bool) *watchRun {
+func (g *fgen) newWatchRun(kind string, fetch bool, viaFH bool) *watchRun {
 	n := g.node
 	n.reset()
 	c := g.newCfg()
@@ -383,8 +468,8 @@ func (g *fgen) newWatchRun(kind string, fetch bool) *watchRun {
 	c.installTokens(n)
 	var bridge Byte32
 	copy(bridge[:], c.bridge)
-	r := &watchRun{g: g, id: g.id(kind), c: c, fetch: fetch, base: time.Now().UnixMilli(),
-		errC: make(chan error), evA: make(chan []*UnconfirmedEvent), evB: make(chan []*UnconfirmedEvent), hC: make(chan int32),
+	r := &watchRun{g: g, id: g.id(kind), c: c, fetch: fetch, viaFH: viaFH, base: time.Now().UnixMilli(),
+		errC: make(chan error), evA: make(chan []*UnconfirmedEvent), evB: make(chan []*UnconfirmedEvent), hC: make(chan int32), hA: make(chan int32),
 		msgC: make(chan *common.MessagePublication, 4096)}
 	r.w = &Watcher{
 		url: n.srv.URL, governanceContractAddress: c.gov, tokenBridgeContractId: bridge,
@@ -417,7 +502,20 @@ func (r *watchRun) start(count0 string) {
 	if !r.fetch {
 		close(r.fetchDone)
 	}
-	line := fmt.Sprintf("winit %s mainnet=%s bridge=%s gov=%s fetch=%s ti=%s", r.id, fb(r.c.mainnet), hex.EncodeToString(r.c.bridge), r.c.gov, fb(r.fetch), r.c.renderTiAddr())
+	r.heightDone = make(chan struct{})
+	if r.viaFH {
+		n.mu.Lock()
+		n.hgated = true
+		n.mu.Unlock()
+		go func() {
+			defer close(r.heightDone)
+			defer r.catch("fetchHeight")
+			r.w.fetchHeight(ctx, logger, r.w.client, r.errC, r.hA)
+		}()
+	} else {
+		close(r.heightDone)
+	}
+	line := fmt.Sprintf("winit %s mainnet=%s bridge=%s gov=%s fetch=%s fh=%s ti=%s", r.id, fb(r.c.mainnet), hex.EncodeToString(r.c.bridge), r.c.gov, fb(r.fetch), fb(r.viaFH), r.c.renderTiAddr())
 	if r.fetch {
 		n.mu.Lock()
 		n.gated = true
@@ -460,9 +558,18 @@ func (r *watchRun) stop() {
 	// (a straggler would otherwise talk to the shared fake node during the next case)
 	n.mu.Lock()
 	n.gated = false
+	n.hgated = false
 	n.pageCap = 1 << 30
 	arrive, release := n.arrive, n.release
+	harrive, hrelease := n.harrive, n.hrelease
 	n.mu.Unlock()
+	if r.hparked {
+		select {
+		case hrelease <- struct{}{}:
+		case <-time.After(50 * time.Millisecond):
+		}
+		r.hparked = false
+	}
 	if r.parked {
 		select {
 		case release <- struct{}{}:
@@ -471,15 +578,23 @@ func (r *watchRun) stop() {
 		r.parked = false
 	}
 	deadline := time.After(5 * time.Second)
-	hd, fd := r.handleDone, r.fetchDone
-	for hd != nil || fd != nil {
+	hd, fd, ed := r.handleDone, r.fetchDone, r.heightDone
+	for hd != nil || fd != nil || ed != nil {
 		select {
 		case <-hd:
 			hd = nil
 		case <-fd:
 			fd = nil
+		case <-ed:
+			ed = nil
 		case <-r.errC:
 		case <-r.evA:
+		case <-r.hA:
+		case <-harrive:
+			select {
+			case hrelease <- struct{}{}:
+			case <-time.After(50 * time.Millisecond):
+			}
 		case <-arrive:
 			release <- struct{}{}
 		case <-deadline:
@@ -553,7 +668,17 @@ func (r *watchRun) newEvents(k int, allowMalformed bool, oneBlock bool) []*evSpe
 	for j := 0; j < k; j++ {
 		m := g.randMsg(r.c)
 		var b *fblock
-		if len(r.blocks) > 0 && (oneBlock || g.chance(55)) {
+		anchor := false
+		if r.dip && !r.anchored && !oneBlock {
+			r.anchored, anchor = true, true
+			m = msgSpec{sender: r.c.bridge, tc: 2, seq: uint64(g.r.Intn(1000)), nonce: g.r.Uint32(), cl: g.cl(), payload: []byte{1, 2, 3}}
+			b = &fblock{bh: g.hash(), height: int32(100 + g.r.Intn(50)), ts: r.base + 2*60*fMinute}
+			r.blocks = append(r.blocks, b)
+			g.node.mu.Lock()
+			g.node.main[b.bh] = true
+			g.node.hdr[b.bh] = fnHeader{b.height, b.ts}
+			g.node.mu.Unlock()
+		} else if len(r.blocks) > 0 && (oneBlock || g.chance(55)) {
 			b = r.blocks[g.r.Intn(len(r.blocks))]
 			if b.mid && b.ts != 0 && !clearOf(r.base-b.ts, m) {
 				if oneBlock {
@@ -572,10 +697,10 @@ func (r *watchRun) newEvents(k int, allowMalformed bool, oneBlock bool) []*evSpe
 		if len(b.evs) > 0 && g.chance(15) { // several events of one transaction
 			e.tx = b.evs[g.r.Intn(len(b.evs))].tx
 		}
-		if allowMalformed && g.chance(12) {
+		if allowMalformed && !anchor && g.chance(12) {
 			e.malform = fMalformKinds[g.r.Intn(len(fMalformKinds))]
 		}
-		if allowMalformed && g.chance(3) {
+		if allowMalformed && !anchor && g.chance(3) {
 			e.idx = int32(g.pick(1, -1, 7))
 		}
 		e.buildFields()
@@ -633,29 +758,85 @@ func (r *watchRun) tables() (string, string) {
 	return fjoin(ms, ","), fjoin(hs, ",")
 }
 
-// heightTick sends one height to the real handleEvents loop and reports what came out.
+// heightTick: the chain is at `height`. Direct cases hand that height to the real handleEvents loop; viaFH cases let the real
+// fetchHeight poll it from the fake node (chain-info request gated like the count request) and pass on whatever it passes on.
+// `height=` in the line is always the height the node reported last (ground truth); `passed=` is what reached the event loop.
 func (r *watchRun) heightTick(height int32, drain bool) {
 	n := r.g.node
+	passed := "-"
+	if r.viaFH {
+		en := r.w.blockPollerEnabled.Load()
+		if !r.hparked {
+			if en {
+				select {
+				case <-n.harrive:
+					r.hparked = true
+				case <-time.After(2 * time.Second):
+				}
+			} else {
+				select {
+				case <-n.harrive: // a poll that raced with the poller being disabled
+					r.hparked = true
+				default:
+				}
+			}
+		}
+		if !r.hparked {
+			mt, ht := r.tables()
+			if en { // enabled, yet the poller asks for nothing any more
+				r.g.emit("wheight %s height=%d passed=- via=fh stall=1 now=%d main=%s hdr=%s reqs=- fwd=- exit=%s en=%s panic=%s drain=%s", r.id, height,
+					time.Now().UnixMilli(), mt, ht, fb(r.exited), r.en(), fb(r.panicked), fb(drain))
+			} else { // poller disabled: no height reaches the event loop
+				r.g.emit("wskip %s height=%d now=%d main=%s hdr=%s en=%s drain=%s", r.id, height, time.Now().UnixMilli(), mt, ht, r.en(), fb(drain))
+			}
+			return
+		}
+	}
+	n.mu.Lock()
+	n.height = height
+	n.mu.Unlock()
 	n.takeLog()
 	mt, ht := r.tables()
 	now := time.Now().UnixMilli()
-	r.hC <- height
-	select {
-	case r.evB <- nil: // barrier: process() has returned
-	case <-r.errC:
-		r.exited = true
-	case <-r.panicC:
-		r.exited, r.panicked = true, true
+	if r.viaFH {
+		r.hparked = false
+		n.hrelease <- struct{}{}
+		select {
+		case h := <-r.hA:
+			passed = fmt.Sprint(h)
+			r.hC <- h
+		case <-r.errC:
+			r.exited = true
+		case <-r.panicC:
+			r.exited, r.panicked = true, true
+		}
+	} else {
+		passed = fmt.Sprint(height)
+		r.hC <- height
+	}
+	if !r.exited {
+		select {
+		case r.evB <- nil: // barrier: process() has returned
+		case <-r.errC:
+			r.exited = true
+		case <-r.panicC:
+			r.exited, r.panicked = true, true
+		}
 	}
 	fwd := drainPubs(r.msgC)
 	sort.Strings(fwd)
-	r.g.emit("wheight %s height=%d now=%d main=%s hdr=%s reqs=%s fwd=%s exit=%s en=%s panic=%s drain=%s", r.id, height, now, mt, ht,
+	r.g.emit("wheight %s height=%d passed=%s via=%s now=%d main=%s hdr=%s reqs=%s fwd=%s exit=%s en=%s panic=%s drain=%s", r.id, height, passed,
+		map[bool]string{true: "fh", false: "direct"}[r.viaFH], now, mt, ht,
 		fjoin(sortedLog(n.takeLog()), ","), fjoin(fwd, ","), fb(r.exited), r.en(), fb(r.panicked), fb(drain))
 }
 
 // randomHeights: values around the confirmation boundaries of the pending events, plus stalls and steps back.
 func (r *watchRun) interestingHeight(cur int32) int32 {
 	g := r.g
+	if r.dip && r.anchored && !r.spiked {
+		r.spiked = true
+		return 600 + int32(g.r.Intn(100))
+	}
 	var cands []int32
 	for _, b := range r.blocks {
 		for _, e := range b.evs {
@@ -683,9 +864,12 @@ func (r *watchRun) perturb(errPct int) {
 	n.mu.Lock()
 	defer n.mu.Unlock()
 	for k := range n.errs {
-		if strings.HasPrefix(k, "main:") || strings.HasPrefix(k, "hdr:") {
+		if strings.HasPrefix(k, "main:") || strings.HasPrefix(k, "hdr:") || k == "height" {
 			delete(n.errs, k)
 		}
+	}
+	if r.viaFH && errPct > 0 && g.chance(3) {
+		n.errs["height"] = true
 	}
 	for _, b := range r.blocks {
 		if g.chance(12) {
@@ -713,9 +897,10 @@ func (r *watchRun) settle() {
 
 // pollCase: batches handed in directly, heights, reorgs, API errors.
 func (g *fgen) pollCase() {
-	r := g.newWatchRun("poll", false)
+	r := g.newWatchRun("poll", false, g.chance(50))
 	r.start("")
 	oneBlock := g.chance(15)
+	r.dip = !oneBlock && g.chance(25)
 	if oneBlock {
 		r.newBlock()
 	}
@@ -915,6 +1100,7 @@ func (g *fgen) genC08() {
 	}
 	g.genConf(nConf)
 	g.genHconf(nHconf)
+	g.genHunconf(nHconf) // attestation validation at the fetch loop ("attested metadata equals what the token contract reports")
 	for i := 0; i < nPoll; i++ {
 		g.pollCase()
 	}
